@@ -304,6 +304,34 @@ func Generate(r *hlib.Rng, class string, mtime int64) *Gen {
 	case "hibyte":
 		g.HiByte = true
 		o.Nested = true
+	case "udp":
+		// replies of every size around the usual limits: TXT sets of growing size, a zone and a
+		// delegation with many name servers and glue
+		z := N("example", "org")
+		g.Zones = append(g.Zones, z)
+		g.SOA(z, nil)
+		for i := 0; i < 14; i++ {
+			g.NS(z, z.Child(fmt.Sprintf("ns%d", i)), "", fmt.Sprintf("192.0.2.%d", 10+i), nil)
+			if r.Chance(1, 2) {
+				g.Addr(z.Child(fmt.Sprintf("ns%d", i)), false, fmt.Sprintf("2001:db8::%x", 10+i), nil, 1)
+			}
+		}
+		d := z.Child("lotofns")
+		for i := 0; i < 16; i++ {
+			g.NS(d, d.Child(fmt.Sprintf("n%d", i)), "", fmt.Sprintf("198.51.100.%d", 1+i), nil)
+			g.Addr(d.Child(fmt.Sprintf("n%d", i)), false, fmt.Sprintf("2001:db8:1::%x", 1+i), nil, 1)
+		}
+		for k := 1; k <= 14; k++ {
+			nm := z.Child(fmt.Sprintf("t%d", k))
+			for j := 0; j < k+r.Intn(3); j++ {
+				g.TXT(nm, false, r.Bytes(20+r.Intn(60), []byte("abcdefghijklmnopqrstuvwxyz0123456789")), nil)
+			}
+		}
+		g.TXT(z.Child("huge"), false, bytes.Repeat([]byte("x"), 1500), nil)
+		for j := 0; j < 12; j++ {
+			g.MX(z.Child("mail"), z.Child(fmt.Sprintf("mx%d", j)), "", fmt.Sprintf("203.0.113.%d", 1+j), nil)
+		}
+		return g
 	case "odd":
 		o.Odd = true
 		o.Located = r.Chance(1, 2)
